@@ -11,6 +11,7 @@ import datetime
 import enum
 
 SCALARS = (int, float, str, bool, type(None), datetime.datetime, enum.Enum, type)
+# tuples of scalars (raw coordinate pairs) are compared element-wise like lists
 
 
 def compare(a, b, ordered=True):
